@@ -224,6 +224,7 @@ package eni
 //@ ghost c04backenderr bool = false
 //@ func Manager.Release
 //@   requires m != nil && req != nil
+//@   modifies IP.podID, NodeCondition.factoryIPExhaustive
 //@   at call NetworkInterface.Release: ghost c04backenderr = (c04backenderr || result1 != nil)
 //@   loop 1 invariant !c04backenderr
 //@   loop 2 invariant !c04backenderr
